@@ -581,6 +581,7 @@ func runC14(c *core.Ctx, o Options) {
 	c.RulePrefix = "Q8"
 	integrityRules(c)
 	c.RulePrefix = ""
+	checkValidatorPresenceOnly(c, "Q8")
 	c.Explanation += " Q6 (= C04.F7): the reply the session queued is taken off the queue by the connection's writer and written — no path receives a message from a byte-message channel and lets it go."
 	s.checkCallbacksOutsideStateLock("Q3")
 	// Q4 (premises): the end-of-message test of the connection reader is start-anchored (a TestReqID containing "10=" does not cut
